@@ -20,7 +20,6 @@ from jax2onnx.plugins._ir_shapes import _ensure_value_metadata, _stamp_type_and_
 from jax2onnx.plugins._patching import AssignSpec, MonkeyPatchSpec
 from jax2onnx.plugins._post_check_onnx_graph import expect_graph as EG
 from jax2onnx.plugins.jax._autodiff_utils import register_jvp_via_jax_jvp
-from jax2onnx.plugins.jax._batching_utils import broadcast_batcher_compat
 from jax2onnx.plugins.jax.numpy._common import get_orig_impl, make_jnp_primitive
 from jax2onnx.plugins.plugin_system import PrimitiveLeafPlugin, register_primitive
 
@@ -233,7 +232,11 @@ def _dot_batch_rule(
     dims: tuple[Any, ...],
     **params: Any,
 ) -> Any:
-    return broadcast_batcher_compat(JnpDotPlugin._PRIM, args, dims, **params)
+    # jnp.dot contracts fixed axes of its operands (and a batched operand is
+    # outside the rank <= 2 domain of the primitive): evaluate the original
+    # function once per example.
+    out = jax.vmap(lambda a, b: _dot_impl(a, b, **params), in_axes=tuple(dims))(*args)
+    return out, 0
 
 
 batching.primitive_batchers[JnpDotPlugin._PRIM] = _dot_batch_rule
